@@ -711,7 +711,7 @@ func (self *Analyzer) assignExpression(node pAst.AssignExpression) ast.AnalyzedA
 		switch node.AssignOperator {
 		case pAst.StdAssignOperatorKind, pAst.PlusAssignOperatorKind,
 			pAst.MinusAssignOperatorKind, pAst.MultiplyAssignOperatorKind,
-			pAst.DivideAssignOperatorKind, pAst.ModuloAssignOperatorKind,
+			pAst.DivideAssignOperatorKind,
 			pAst.PowerAssignOperatorKind:
 		default:
 			if prevErr {
